@@ -385,7 +385,7 @@ func (fr *frame) applyContract(st *PState, ct *Contract, sig *types.Signature, f
 	for _, en := range ct.Ensures {
 		t, err := env2.TrBool(en.Expr)
 		if err != nil {
-			if strings.Contains(err.Error(), "unknown identifier it_") {
+			if strings.Contains(err.Error(), "unknown identifier it_") || strings.Contains(err.Error(), "unknown identifier res_") {
 				continue // clause about the callee's internal iterator ghost: not visible to callers
 			}
 			bail("ensures[%s] of %s: %v", en.Label, ShortName(ct.Func), err)
